@@ -9,6 +9,7 @@ import (
 	"os"
 	"path/filepath"
 	"regexp"
+	"sort"
 	"strconv"
 	"strings"
 
@@ -651,9 +652,14 @@ func ruleC12Listener(c *Ctx) {
 		case typeOf(res[0]) == nil || namedOf(typeOf(res[0])) != nodeT:
 			ok, why = false, fmt.Sprintf("%s is not typed as a new %s (got %v)", w.op, w.node, typeOf(res[0]))
 		default:
-			f := fieldsOf(res[0])
-			if f[".f0"].Sym != "operand:left" || f[".f1"].Sym != "operand:right" {
-				ok, why = false, fmt.Sprintf("%s is typed as %s but its operands are (%s, %s) instead of (left, right)", w.op, w.node, f[".f0"].Sym, f[".f1"].Sym)
+			// the node's fields in declaration order, those of an embedded operand struct included
+			f := leafFields(fieldsOf(res[0]))
+			var a, b AV
+			if len(f) == 2 {
+				a, b = f[0], f[1]
+			}
+			if a.Sym != "operand:left" || b.Sym != "operand:right" {
+				ok, why = false, fmt.Sprintf("%s is typed as %s but its operands are (%s, %s) instead of (left, right)", w.op, w.node, a.Sym, b.Sym)
 			}
 		}
 		c.Check(ok, "C12.LISTENER", construct, p.Pos(tt.Pos()), w.op+" becomes "+w.node+"{left, right}", w.op+" is not typed as "+w.node+" with operands in order: "+why)
@@ -1017,6 +1023,29 @@ func listenerFuncs(c *Ctx) []*ssa.Function {
 			seen[callee] = true
 			out = append(out, callee)
 			out = append(out, callee.AnonFuncs...)
+		}
+	}
+	return out
+}
+
+// leafFields: the values of an object's fields as stored on the decided path (".f0", ".f1", ".f0.f1", ...), in
+// declaration order, with the fields of embedded structs in place of the struct.
+func leafFields(f map[string]AV) []AV {
+	var keys []string
+	for k := range f {
+		keys = append(keys, k)
+	}
+	sort.Strings(keys)
+	var out []AV
+	for _, k := range keys {
+		leaf := true
+		for _, o := range keys {
+			if o != k && strings.HasPrefix(o, k+".") {
+				leaf = false
+			}
+		}
+		if leaf {
+			out = append(out, f[k])
 		}
 	}
 	return out
